@@ -1082,6 +1082,12 @@ class Child(Entity):  # A Zone, Device or a UfhCircuit
         )
         ctl = parent if isinstance(parent, UfhController) else parent.ctl
 
+        if isinstance(self, Controller) and ctl is not self:
+            # a controller may be the sensor of its own zone, never of another's
+            raise exc.SystemSchemaInconsistent(
+                f"{self} cant be a child of another controller: {ctl}"
+            )
+
         if self.ctl and self.ctl is not ctl:
             # NOTE: assume a device is bound to only one CTL (usu. best practice)
             raise exc.SystemSchemaInconsistent(
